@@ -118,8 +118,8 @@ Full statement / proved / missing
                          proved part `C17f_subtype_partial`: … unless a function of the interface is re-declared at another
                          type.  Not claimed: "never the reverse" for interfaces (an interface accepts every type that has its
                          functions, descendant or not — that is what an interface is; asserted on the implementation by `@ifacex`).
-* missing altogether: annotations, `equality` / `serialization` naming a function (implementation-only streams `@objd`, `@msg`;
-  name clashes between functions and attributes / constants ARE modelled: `fnShadow`, `attrShadow`, `memberAttr`), Go-reflected objects (`reflectedObject`); the Go-implemented object types are checked on the
+* missing altogether: annotations (implementation-only stream `@objd`; name clashes between functions and attributes / constants and
+  `equality` / `serialization` naming a function ARE modelled: `fnShadow`, `attrShadow`, `memberAttr`, `checkEqualityF`), Go-reflected objects (`reflectedObject`); the Go-implemented object types are checked on the
   implementation only (`@goobj`).
 -/
 namespace Pcore.Object
@@ -171,6 +171,9 @@ structure WellFormedDef (env : List OType) (d : Def) : Prop where
   /-- every member function is a fresh name or a proper override of an inherited function (trivially true of a definition
       without `functions`) -/
   funcs : defineFuncs (parentOf env d) (d.attrs.map (·.name)) d.funcs = .ok ()
+  /-- `equality` / `serialization` name no member function -/
+  noFnNames : ∀ as, defineAttrs (parentOf env d) (d.decls (parentOf env d)) = .ok as →
+    ∀ n ∈ d.equality.toList?.getD [] ++ d.serialization.getD [], isFnName as d.funcs (parentOf env d) n = false
   attrs : ∀ a ∈ d.decls (parentOf env d), AttrDeclOK a
   override : ∀ a ∈ d.decls (parentOf env d), OverrideOK (parentOf env d) a
   equality : ∀ as, defineAttrs (parentOf env d) (d.decls (parentOf env d)) = .ok as →
@@ -193,8 +196,13 @@ theorem C17_schema_partial {env : List OType} {d : Def} (h : WellFormedDef env d
     · obtain ⟨h1, h2, h3⟩ := h.serialization as has ser hs
       rw [hs]
       exact checkSerialization_succeeds h1 (fun hb => by cases hb) h2 h3 (by simp)
+  have hnf := h.noFnNames as has
+  have heqF := checkEqualityF_of (own := as) (ownF := d.funcs) (parent := parentOf env d)
+    (fun n hn => hnf n (List.mem_append.mpr (Or.inl hn)))
+  have hserF := checkSerializationF_of (own := as) (ownF := d.funcs) (parent := parentOf env d)
+    (fun n hn => hnf n (List.mem_append.mpr (Or.inr hn)))
   unfold define
-  simp only [h.params, h.noBoth, h.funcs, Bool.false_eq_true, if_false, has, heq, hser]
+  simp only [h.params, h.noBoth, h.funcs, Bool.false_eq_true, if_false, has, heqF, hserF, heq, hser]
   exact ⟨_, rfl⟩
 
 /-! ### … and its init-hash is an instance of the declared schema `TypeObjectInitHash` (regenerated table) -/
@@ -1029,7 +1037,7 @@ theorem assertOverride_asg {parent : OType} {a pa : Attr} (ho : assertOverride p
 theorem C17_override_sound {env : List OType} {d : Def} {l : Level} {p : OType} (h : define env d = .ok (l :: p))
     {a pa : Attr} (ha : a ∈ l.attrs) (hf : findAttr p a.name = some pa) {v : Val} (hv : inst a.ty v = true) :
     inst pa.ty v = true := by
-  obtain ⟨-, -, attrs, hattrs, -, -, -, ht⟩ := define_parts h
+  obtain ⟨-, -, attrs, hattrs, -, -, -, -, ht⟩ := define_parts h
   have hl : l.attrs = attrs := by rw [(List.cons.inj ht).1]
   have hp : p = parentOf env d := (List.cons.inj ht).2
   rw [hl] at ha
@@ -1779,7 +1787,7 @@ theorem C17_type_inithash_same {env : List OType} {d : Def} {l : Level} {p : OTy
       get { typ := l :: p, values := vs } n) ∧
     (∀ vs, initHash { typ := { l with attrs := reorder l.attrs } :: p, values := vs } =
       initHash { typ := l :: p, values := vs }) := by
-  obtain ⟨-, hboth, attrs, hattrs, -, -, -, ht⟩ := define_parts h
+  obtain ⟨-, hboth, attrs, hattrs, -, -, -, -, ht⟩ := define_parts h
   have hla : l.attrs = attrs := by rw [(List.cons.inj ht).1]
   have hnd : (l.attrs.map (·.name)).Nodup := by
     rw [hla, (defineAttrs_ok hattrs).1]; exact decls_nodup hd.names hd.constNames hboth
@@ -1955,7 +1963,12 @@ example : WellFormedDef [] (sampleDefs.headD default) := by
   have hdecls : (sampleDefs.headD default).decls (parentOf [] (sampleDefs.headD default)) =
       [{ name := "a", ty := .int, kind := .normal, dflt := none },
        { name := "k", ty := .int, kind := .constant, dflt := some (.int 7) }] := rfl
-  refine ⟨rfl, rfl, rfl, ?_, ?_, ?_, ?_⟩
+  refine ⟨rfl, rfl, rfl, ?_, ?_, ?_, ?_, ?_⟩
+  · intro as _ n hn
+    simp only [sampleDefs, List.headD_cons, EqDecl.toList?, Option.getD_some, Option.getD_none, List.append_nil,
+      List.mem_cons, List.not_mem_nil, or_false] at hn
+    subst hn
+    simp [isFnName, sampleDefs, parentOf, fnShadow]
   · intro a ha
     rw [hdecls] at ha
     simp only [List.mem_cons, List.not_mem_nil, or_false] at ha
